@@ -67,7 +67,9 @@ def run(rep, idx, tier):
         check_dl(rep, "C07.2", c, "sub.cyc == bus.cyc inside the subordinate's window, else 0", ds, "0",
                  [(r.case, "self.bus.cyc")], env)
     ds = c.drivers_of(c.parse("self.bus.dat_r"))
-    if not ds or {d.domain for d in ds} != {"comb"}:
+    if not ds and c.overlapping(c.parse("self.bus.dat_r")):
+        rep.unk("C07.2", site, "bus.dat_r", "driven bit by bit / slice by slice; the rule compares the signal as a whole and does not assemble it")
+    elif not ds or {d.domain for d in ds} != {"comb"}:
         rep.bad("C07.2", site, "bus.dat_r", "must be driven combinationally")
     else:
         check_dl(rep, "C07.2", c, "bus.dat_r == selected subordinate's dat_r, else 0", ds, "0", [(r.case, "sub.dat_r")], env)
@@ -91,6 +93,9 @@ def run(rep, idx, tier):
 
 def sel_val(rep, rule, c, r, target, value, what):
     ds = c.drivers_of(c.parse(target, r.env))
+    if not ds and c.overlapping(c.parse(target, r.env)):
+        rep.unk(rule, c.fi.site, what, f"{target} is " + "driven bit by bit / slice by slice; the rule compares the signal as a whole and does not assemble it")
+        return
     if not ds or {d.domain for d in ds} != {"comb"}:
         rep.bad(rule, c.fi.site, what, f"{target} must be driven combinationally", lines=[d.lineno for d in ds])
         return
